@@ -250,6 +250,9 @@ func genC03(c *Ctx) {
 				}
 				if r.Intn(5) == 0 {
 					p.answers = 2
+				} else if r.Intn(6) == 0 {
+					p.overlap = []string{"respond.mark", "respond.post", "respond.queued"}[r.Intn(3)]
+					c.count("overlapping-answers")
 				}
 				s.mu.Lock()
 				s.plans[base+j] = p
